@@ -7,7 +7,7 @@ GLOBAL_TRUSTED = [
     "derived PartialEq on fieldless enums is structural",
 ]
 
-HOOK_COMMITS = []
+HOOK_COMMITS = ["26e7f2c", "6959aad", "c557a63"]
 
 PROPS = {
     "C01": {
@@ -35,10 +35,10 @@ PROPS["C07"] = {
 PROPS["C02"] = {
     "units": ["h1_transfer_encoding", "h1_codec", "h1_dispatcher_io", "h1_chunked", "h1_poll_request", "h1_poll_response"],
     "kani": [],
-    "technique": "Verus contracts on the extracted real TransferEncoding encoder against an RFC 7230 chunk-framing oracle (exact bytes appended, length enforcement, terminator exactly once, short body is an error)",
-    "level_text": "deductive proof, for all chunk contents/lengths and encoder states, that TransferEncoding::encode/encode_eof append exactly the oracle's bytes (chunked: hex CRLF data CRLF, terminator once; sized: cut to the declared length; eof: pass-through) and that a short sized body yields UnexpectedEof; MessageEncoder::encode chooses the body framing from (HEAD?, body size, chunked allowed, upgrade stream) of THIS message only; Codec::encode encodes the head with exactly the context recorded when that request was decoded; poll_flush writes every buffered byte exactly once and in order; and the theorem decode-of-encode (lemma_decode_of_encode in unit h1_chunked, over the shared wire oracle specs/chunked_wire.vs): for every list of non-empty chunks, the bytes the chunked encoder writes are decoded by the RFC 7230 automaton to exactly their concatenation, ending in state End with nothing left over",
-    "level_note": "assumes shim contracts for bytes::BytesMut and that writeln!(MutWriter(buf), \"{:X}\\r\", n) appends upper-hex(n) CR LF (R12); dispatcher-level clauses (one response per request, ordering, independence across pipelined requests) are listed under not_decided_clauses",
-    "not_decided": ["exactly one final response per dispatched request, in request order, never interleaved (h1::Dispatcher state machine: not under contract)",
+    "technique": "Verus contracts on the extracted real TransferEncoding encoder against an RFC 7230 chunk-framing oracle (exact bytes appended, length enforcement, terminator exactly once, short body is an error); Verus contracts on the extracted real InnerDispatcher::{send_response_inner, send_response, send_error_response, poll_response} over a ghost wire log, ghost request ids and a ghost answered/in-hand/queued order",
+    "level_text": "deductive proof, for all chunk contents/lengths and encoder states, that TransferEncoding::encode/encode_eof append exactly the oracle's bytes (chunked: hex CRLF data CRLF, terminator once; sized: cut to the declared length; eof: pass-through) and that a short sized body yields UnexpectedEof; MessageEncoder::encode chooses the body framing from (HEAD?, body size, chunked allowed, upgrade stream) of THIS message only; Codec::encode encodes the head with exactly the context recorded when that request was decoded; poll_flush writes every buffered byte exactly once and in order; and the theorem decode-of-encode (lemma_decode_of_encode in unit h1_chunked, over the shared wire oracle specs/chunked_wire.vs): for every list of non-empty chunks, the bytes the chunked encoder writes are decoded by the RFC 7230 automaton to exactly their concatenation, ending in state End with nothing left over; for InnerDispatcher::poll_response / send_response / send_error_response (all schedules of handler completion, body readiness and arrival of later requests, since every future and body is an arbitrary prophesied stream): a response head is encoded only when no response is open and body chunks / the terminator only inside an open one (never interleaved: these are preconditions of the codec's encode, discharged at every call site), the sequence (request ids already answered ++ the one in hand ++ the queued ones) only ever grows at the back, so responses are started in exactly the order requests were queued with one head each; the response started is the one the service/expect future of the request in hand produced; the 100-continue interim is written only between responses; the dispatcher state and the encoder agree on whether a response is open; an idle return means the queue is empty",
+    "level_note": "assumes shim contracts for bytes::BytesMut and that writeln!(MutWriter(buf), \"{:X}\\r\", n) appends upper-hex(n) CR LF (R12); in h1_poll_response the codec's encode, the service/expect futures and the bodies are assumed contracts (ghost log, prophesied streams), pin projection is erased (R3/R4b/R4c) and termination of the outer loop is not proved; independence of framing across pipelined requests is the known finding S1",
+    "not_decided": ["handle_request (eager first poll of a request decoded while nothing is in flight) and the upgrade hand-off: not under contract; poll_response assumes poll_request leaves an in-flight state alone", "the ghost wire log of h1_poll_response is not connected to the bytes Codec::encode writes (unit h1_codec proves those separately)",
                     "framing depends only on that request/response, not on other pipelined requests (Codec context held while a response is in flight; DESIGN.md S1)",
                     "status-dependent header rules of MessageType::encode_headers (no body for 1xx/204/304, Content-Length/Transfer-Encoding/Connection headers)"],
     "assumptions": ["TransferEncoding::encode precondition: msg.len() + 2 <= usize::MAX (a slice cannot span the whole address space)"],
@@ -106,19 +106,19 @@ PROPS["C05"] = {
     "units": ["h1_dispatcher_io", "h1_poll_request", "h1_poll_response", "h1_payload", "multipart_payload", "web_payload_body"],
     "kani": [],
     "technique": "Verus contracts on the individual guard mechanisms: read_available's buffer cap, the body channel's back-pressure flag, bounded extractor/multipart buffers",
-    "level_text": "deductive proof of each guard under contract, for all inputs: read_available attempts no read once read_buf holds MAX_BUFFER_SIZE bytes and otherwise only appends; the body channel's need_read flag is exactly (buffered < 32 KiB) after every feed/poll and can_read refuses to read while the consumer applies back-pressure; poll_stream/append_pending never grow the multipart buffer past its limit; HttpMessageBody never buffers beyond its limit",
-    "level_note": "each guard is proved separately; their composition into one per-connection high-water mark over all schedules is not decided; MAX_PIPELINED_MESSAGES and the SendPayload write-buffer loop live inside poll_request/poll_response (not under contract); the 431 path (Request::decode TooLarge) is not under contract",
-    "not_decided": ["the number of requests queued by ONE poll_request call (the 16-message limit is checked on entry only)", "poll_response SendPayload loop bounded by h1_write_buffer_size", "the size of one socket read (spare capacity chosen by BytesMut::reserve)", "global maximum over executions"],
+    "level_text": "deductive proof of each guard under contract, for all inputs: read_available attempts no read once read_buf holds MAX_BUFFER_SIZE bytes and otherwise only appends; the body channel's need_read flag is exactly (buffered < 32 KiB) after every feed/poll and can_read refuses to read while the consumer applies back-pressure; poll_stream/append_pending never grow the multipart buffer past its limit; HttpMessageBody never buffers beyond its limit; the response body (and error-response body) is polled only while write_buf holds fewer than h1_write_buffer_size bytes, so the buffer exceeds the limit by at most one encoded chunk",
+    "level_note": "each guard is proved separately; their composition into one per-connection high-water mark over all schedules is not decided; the size of one encoded chunk is the handler's choice",
+    "not_decided": ["the number of requests queued by ONE poll_request call (the 16-message limit is checked on entry only)", "the size of one socket read (spare capacity chosen by BytesMut::reserve)", "global maximum over executions"],
     "assumptions": [],
 }
 
 PROPS["C03"] = {
     "units": ["h1_dispatcher_io", "h1_codec", "h1_poll_request", "h1_poll_response"],
     "kani": [],
-    "technique": "Verus contracts on the extracted real decision functions of the reuse discipline: should_close_for_unread_payload, enter_linger, can_read, read_available's FINISHED handling, Codec's connection-type bookkeeping",
-    "level_text": "deductive proof, for all states, of the functions that implement close-means-close: the unread-payload close decision equals `body unfinished and not (dropped and drainable)`; enter_linger clears KEEP_ALIVE and sets LINGER|FINISHED touching nothing else; no read is attempted after READ_DISCONNECT; while an unread, dropped request body is being drained a successful read does not clear FINISHED (so the close decision survives the drain) and no other flag is touched; the codec records Close when keep-alive is disabled and a response's Close/Upgrade overrides the recorded type; body bytes are never handed to the head parser while a payload decoder is installed",
-    "level_note": "function-level proofs only: the connection-level statement (nothing further is written or dispatched after a close-announcing response) is a whole-history invariant of poll_response/poll_request, which are not under contract",
-    "not_decided": ["send_response / send_error_response setting Connection: close and entering linger/shutdown (textually parallel; not under contract)", "poll_response end-of-body branches and the keep-alive decision when the queue is empty", "poll_linger deadline handling (time)", "connection-level: no write / no dispatch after a close-announcing response (DESIGN.md S2)"],
+    "technique": "Verus contracts on the extracted real decision functions of the reuse discipline: should_close_for_unread_payload, enter_linger, can_read, read_available's FINISHED handling, Codec's connection-type bookkeeping; contracts on send_response / send_error_response / poll_response (Connection: close announced and linger/shutdown entered when the request body is unread and undrainable, keep-alive decision)",
+    "level_text": "deductive proof, for all states, of the functions that implement close-means-close: the unread-payload close decision equals `body unfinished and not (dropped and drainable)`; enter_linger clears KEEP_ALIVE and sets LINGER|FINISHED touching nothing else; no read is attempted after READ_DISCONNECT; while an unread, dropped request body is being drained a successful read does not clear FINISHED (so the close decision survives the drain) and no other flag is touched; the codec records Close when keep-alive is disabled and a response's Close/Upgrade overrides the recorded type; body bytes are never handed to the head parser while a payload decoder is installed; for send_response / send_error_response: when the request body is unread and undrainable (or the connection is draining) and the response is not an upgrade, the head is encoded with connection type Close, and if the response has no body the flags are FINISHED plus LINGER without KEEP_ALIVE (disconnect deadline configured) or SHUTDOWN; for poll_response: at the end of a response body and of an error-response body alike, nothing pipelined and an unread undrainable request body put the connection into the same closing state; KEEP_ALIVE is set on an idle return exactly when the request body is finished and the codec still says keep-alive; draining drops the queue, clears KEEP_ALIVE and shuts down",
+    "level_note": "function-level proofs plus the invariants of poll_response; the connection-level statement is decided only up to the flags (that Dispatcher::poll acts on LINGER/SHUTDOWN/FINISHED is not under contract); one obligation (no request is dispatched after a close-announcing response) fails on the unchanged tree and is recorded as a known finding",
+    "not_decided": ["Dispatcher::poll acting on the flags (LINGER -> poll_linger, SHUTDOWN -> poll_shutdown) and poll_linger deadline handling (time)", "handle_request (eager first poll inside poll_request)"],
     "assumptions": [],
 }
 
@@ -197,10 +197,18 @@ PROPS["C19"] = {
     "kani": [
         {"crate": "actix-router", "harness": "kc_hex_pair_to_char_full_domain", "kind": "complete", "quick": True, "timeout": 900,
          "what": "quoter::hex_pair_to_char: no panic / overflow for any byte pair (CBMC checks every arithmetic and pointer operation)"},
+        {"crate": "actix-web", "harness": "kb_unquote_len3", "kind": "bounded", "quick": True, "timeout": 1800, "bound": "every valid-UTF-8 text of at most 3 bytes",
+         "what": "info::unquote (Forwarded / X-Forwarded-* parameter values): no panic, no out-of-range or off-char-boundary slice"},
+        {"crate": "actix-web", "harness": "kb_bare_address_len3", "kind": "bounded", "quick": True, "timeout": 1800, "bound": "every valid-UTF-8 text of at most 3 bytes",
+         "what": "info::bare_address (Forwarded for= value): no panic, no out-of-range slice"},
+        {"crate": "actix-web", "harness": "kb_unquote_len4", "kind": "bounded", "quick": False, "timeout": 3000, "bound": "every valid-UTF-8 text of at most 4 bytes",
+         "what": "info::unquote: no panic"},
+        {"crate": "actix-web", "harness": "kb_bare_address_len4", "kind": "bounded", "quick": False, "timeout": 3000, "bound": "every valid-UTF-8 text of at most 4 bytes",
+         "what": "info::bare_address: no panic"},
     ],
     "technique": "Verus' unconditional per-function safety obligations (no arithmetic over/underflow, every index/slice in range through the R6 shim preconditions, no failed unwrap, callee preconditions, loop termination via decreases) on every extracted peer-facing parser",
     "level_text": "deductive proof, for ALL inputs, of panic-freedom and termination of the functions under contract that handle peer-controlled bytes: HTTP/1 chunked and length decoders, the transfer encoders, server and client codecs, WebSocket header/frame parser and fragment automaton, multipart buffer and field scanners (read_stream, read_len, read_until, poll_stream), ranged file stream arithmetic, HTTP/2 response-head preparation, header-map iterators, the bytes and form extractors' collection loops. Only the `safety` obligation of each function is counted here; their functional obligations belong to C01/C02/C12/C14/C15/C16/C17/C18",
-    "level_note": "a function that is not extracted is not covered: the typed header parsers (content_disposition.rs, http/header/range.rs, info.rs, types/query.rs) are built on regex/str combinators that Verus cannot take and contain no indexing or arithmetic of their own; actix-router path.rs u16 offsets, Request::decode below httparse, NamedFile range arithmetic and the unsafe header writer (encoder.rs) are NOT under contract",
+    "level_note": "a function that is not extracted is not covered: the typed header parsers (content_disposition.rs, http/header/range.rs, types/query.rs) are built on regex/str combinators that Verus cannot take and contain no indexing or arithmetic of their own; info.rs's unquote/bare_address get a BOUNDED Kani check only (texts of at most 3, thorough 4, bytes: not counted as proved); actix-router path.rs u16 offsets, Request::decode below httparse, NamedFile range arithmetic and the unsafe header writer (encoder.rs) are NOT under contract",
     "not_decided": ["MessageType::encode_headers unsafe writer (raw pointer + length in sync)", "write_camel_case index arithmetic", "actix-router Path::add/skip u16 arithmetic (needs the url-length type invariant)", "NamedFile::into_response `offset + length - 1`", "typed header FromStr implementations (regex/str combinators: dependencies)", "Request::decode / HeaderIndex::record pointer arithmetic", "unbounded loops outside the extracted functions"],
     "assumptions": ["preconditions listed for each unit under C01..C18 (buffer lengths fit usize, allocations <= isize::MAX, boundary non-empty)"],
 }
